@@ -1,5 +1,5 @@
 (** C17 — Alias substitution equals textual replacement at command position and terminates. *)
-From GoSh Require Import Base.Bytes Lex.Alias.
+From GoSh Require Import Base.Bytes Lex.Alias Lex.AliasStream.
 
 (** The stack of aliases being expanded always holds pairwise distinct names that are aliases. *)
 Theorem C17_stack_names_distinct :
@@ -19,5 +19,77 @@ Theorem C17_no_self_expansion :
 Proof. exact no_self_expansion. Qed.
 Print Assumptions C17_no_self_expansion.
 
-(** Not proved: equality with textual replacement (decided on every run against the reference
-    replacement on folded / unfolded renderings of generated command structures). *)
+(** * the character stream under substitution (Lex/AliasStream.v: read, unread, subst of the lexer,
+    replayed on every run against the events of the real lexer)
+
+    The text still to be read is [flatten]: the unread parts of the alias values being expanded,
+    innermost first, then the rest of the source. *)
+
+(** one read returns the first character of that text and leaves the rest (whichever exhausted
+    entries it drops on the way) *)
+Theorem C17_read_is_head_of_text : forall s,
+  match read s with
+  | (Some c, s') => flatten s = c :: flatten s'
+  | (None, s') => flatten s = [] /\ s' = ([], [])
+  end.
+Proof. exact read_flatten. Qed.
+Print Assumptions C17_read_is_head_of_text.
+
+(** reading to the end yields exactly that text, in order *)
+Theorem C17_stream_is_the_replaced_text : forall fuel s, (length (flatten s) <= fuel)%nat -> drain fuel s = flatten s.
+Proof. exact drain_flatten. Qed.
+Print Assumptions C17_stream_is_the_replaced_text.
+
+(** putting a character back restores the text *)
+Theorem C17_unread_restores : forall s c s', read s = (Some c, s') -> flatten (unread s' c) = flatten s.
+Proof. exact unread_read. Qed.
+Print Assumptions C17_unread_restores.
+
+(** substitution is textual replacement: after the word [name] has been read, what the lexer
+    reads next is the alias value (its trailing blanks replaced by one blank) followed by what
+    followed the word -- also when the word itself came from an alias value (repeated replacement) *)
+Theorem C17_substitution_is_textual_replacement : forall t s name s',
+  asubst t s name = Some s' ->
+  exists v, alias_lookup name t = Some v /\ flatten s' = trim_right v ++ [32] ++ flatten s.
+Proof. exact subst_is_textual_replacement. Qed.
+Print Assumptions C17_substitution_is_textual_replacement.
+
+(** a name is never replaced inside its own expansion *)
+Theorem C17_guard : forall t s name, In name (names (fst s)) -> asubst t s name = None.
+Proof. exact subst_guard. Qed.
+Print Assumptions C17_guard.
+
+(** whatever the lexer does (any sequence of reads, unreads and substitutions, on any table, cyclic
+    ones included), the names being expanded stay pairwise distinct and the stack is no deeper than
+    the table *)
+Theorem C17_every_table_terminates : forall t ops src,
+  let s := fold_left (astep t) ops ([], src) in
+  NoDup (names (fst s)) /\ (length (fst s) <= length t)%nat.
+Proof. exact stream_depth_bounded. Qed.
+Print Assumptions C17_every_table_terminates.
+
+(** when a value ends in a blank the following word is examined too: the flag recorded at the
+    substitution says exactly that, and it is pending once the value has been read to its end *)
+Theorem C17_blank_rule : forall t s name s' e below,
+  asubst t s name = Some s' -> fst s' = e :: below ->
+  (eblank e = true <-> exists v v0 c, alias_lookup name t = Some v /\ v = v0 ++ [c] /\ is_blank c = true) /\
+  blank_pending (set_rest e [] :: below) = eblank e || blank_pending below.
+Proof. exact blank_rule. Qed.
+Print Assumptions C17_blank_rule.
+
+(** the premises are met: a chain of two aliases, the inner one blank-terminated *)
+Example C17_stream_witness :
+  let t := [([97], [98; 32; 120]); ([98], [99; 32])] in
+  match asubst t ([], [32; 122]) [97] with
+  | Some s1 =>
+    match asubst t (snd (read s1)) [98] with
+    | Some s2 => drain 20 s2 = [99; 32; 32; 120; 32; 32; 122]
+    | None => False
+    end
+  | None => False
+  end.
+Proof. vm_compute. reflexivity. Qed.
+
+(** Not proved: that the tokens the lexer forms from this character stream are examined for
+    substitution at command position only (which words are looked up); decided on every run against
+    the reference replacement on folded / unfolded renderings of generated command structures. *)
